@@ -536,6 +536,9 @@ def fdepsd(
         >>> _ = plt.legend(loc='best')
     """
     sig, freq = np.atleast_1d(sig, freq)
+    # double precision whatever the caller passed: the parallel path
+    # gets float64 copies, so the serial path must use them too
+    freq = freq.astype(float, copy=False)
     if sig.ndim > 1 or freq.ndim > 1:
         raise ValueError("`sig` and `freq` must both be 1d arrays")
     if resp not in ("absacce", "pvelo"):
